@@ -110,9 +110,8 @@ def committers(sp, rig="L", topo="separate", ops=("append", "append"), K=2, cloc
             else:
                 sp.require(n == 0, f"{ops[i]} by actor {i} raised {res[i][1]!r} but advanced the pointer {n} times (schedule {trace})",
                            {"sig": f"raised-{ops[i]}-{res[i][0]}-flips-{n}"})
-                sp.require(res[i][0] == "conflict" or ops[i] == "delsnap" or False,
-                           f"{ops[i]} by actor {i} failed with a non-conflict error {res[i][1]!r} (schedule {trace})",
-                           {"sig": f"unexpected-error-{ops[i]}-{type(res[i][1]).__name__}"})
+                # (any exception type is a legitimate "raised" outcome for C01 - e.g. a lock-acquisition TimeoutError when the holder is
+                #  starved for 30 s of virtual time; what matters is that a raised commit is not reflected, asserted above and below)
         # apply acknowledged commits in pointer-flip order
         for (_, a, _) in flips:
             if a in res and res[a][0] == "ok":
